@@ -368,7 +368,14 @@ class Oracle:
     def check_valid(self, iso, opc):
         from pygaps.core.baseisotherm import BaseIsotherm
         try:
-            BaseIsotherm(**iso.to_dict())
+            rebuilt = BaseIsotherm(**iso.to_dict())
+            # "the labels name exactly that representation": rebuilding the isotherm from its own dictionary
+            # must give back the same labels (the constructor's normal form of a representation)
+            for k in LABELS:
+                if getattr(rebuilt, k) != getattr(iso, k):
+                    self.fail("labels-not-canonical", f"after={opc} label={k}",
+                              {"label": k, "isotherm": getattr(iso, k), "rebuilt": getattr(rebuilt, k)})
+                    return False
             return True
         except Exception as e:
             lab = {k: getattr(iso, k, None) for k in LABELS}
